@@ -714,6 +714,30 @@ func (c *Ctx) commitKeyDiscipline(rule string) {
 			}
 			n++
 			k := storageKind(core.Arg(call, 0))
+			if k == "" {
+				// a put-or-delete helper writes under the key it receives: the key is constructed at its call sites
+				if p, isP := core.Strip(core.Arg(call, 0)).(*ssa.Parameter); isP && p.Parent() != nil {
+					if pi := paramIndex(p.Parent(), p); pi >= 0 {
+						ss := core.StaticSitesOf(p.Parent())
+						all := len(ss) > 0
+						kk := ""
+						for _, site := range ss {
+							if pi >= len(site.Common().Args) {
+								all = false
+								break
+							}
+							sk := storageKind(site.Common().Args[pi])
+							if sk == "" {
+								all = false
+							}
+							kk = sk
+						}
+						if all {
+							k = kk
+						}
+					}
+				}
+			}
 			key := "Commit: " + o.Name() + " key constructed"
 			seen[key]++
 			r.Check(k != "", rule, fmt.Sprintf("%s #%d", key, seen[key]), c.P.Pos(call.Pos()), "key kind "+k,
